@@ -699,11 +699,7 @@ impl PlainDate {
         let epoch_ns = if let Some(time) = plain_time {
             let result_iso = IsoDateTime::new(self.iso, time.iso)?;
 
-            tz.get_epoch_nanoseconds_for(
-                result_iso,
-                Disambiguation::Compatible,
-                provider,
-            )?
+            tz.get_epoch_nanoseconds_for(result_iso, Disambiguation::Compatible, provider)?
         } else {
             tz.get_start_of_day(&self.iso, provider)?
         };
